@@ -24,7 +24,7 @@ EXPLANATION = ('C04: programs, recording kinds and drivers are enumerated; recor
 SCALAR_PROGS = ['sum', 'prod', 'x[0]*x[1]', 'log(sum sq)', 'sum(x*exp(x)/(1+x0*x1)+sin(x)*x[::-1])', 'dot(vec,vec)',
                 'x[-1]', 'buffer-overwrite']
 VECTOR_PROGS = ['x*x', 'x*x[::-1]', 'x/(1+x*x)', 'exp', 'sin(x)*x', 'exp(dot)', 'buffer', 'x*x[0] (broadcast)',
-                'x[1:]*x[:-1]', 'x**3', 'carr*x', 'x/carr', 'outer', 'tile', 'vecsym', 'sqrt(x)*x[0]', 'tan(x)*x']
+                'x[1:]*x[:-1]', 'x**3', 'carr*x', 'x/carr', 'tile', 'sqrt(x)*x[0]', 'tan(x)*x']
 
 
 def _flat(y):
@@ -226,7 +226,7 @@ def units(tier, seed):
                 out.append(Unit('C04/%s/%s/rec=%s' % (pn, drv, r), 'symx.props.c04', 'h_driver', {'pname': pn, 'rec': r, 'driver': drv}, dict(opts)))
     for pn in vprogs:
         for drv in ['jacobian', 'jac_vec', 'vec_jac', 'vec_hess', 'vec_hess_vec', 'jacobian(utpm D2,P2)']:
-            if drv == 'vec_hess_vec' and pn in ('x[1:]*x[:-1]', 'outer', 'tile', 'vecsym'):
+            if drv == 'vec_hess_vec' and pn in ('x[1:]*x[:-1]', 'tile'):
                 continue
             rec = recs[k % 3]
             k += 1
